@@ -46,7 +46,8 @@ def make_operand(ctx, algopy, kind, name, shape, D, P, cplx, scale=None):
         if sym:
             obj = algopy.UTPM(npx.sarr(X, complex if cplx else float))
         else:
-            obj = algopy.UTPM(np.array(X.tolist(), dtype=complex if cplx else float).reshape(X.shape))
+            # (mk_utpm applies the storage layout asked for by the unit: Fortran order, strided directions)
+            obj = mk_utpm(ctx, algopy, np.array(X.tolist(), dtype=complex if cplx else float).reshape(X.shape))
         return obj, (lambda d, p, idx: X[(d, p) + idx])
     if kind == 'ndarray':
         A = np.empty(shape, dtype=object)
@@ -140,7 +141,8 @@ def h_binop(ctx, op, lkind, rkind, lshape, rshape, D, P, lc=False, rc=False, for
             z = OPS[op](x, y)
         else:
             zb = OPS[op](x, y)
-            z = x.copy()
+            # a second operand object with the same values AND the same storage layout (x.copy() would be C-ordered)
+            z, _ = make_operand(ctx, algopy, lkind, 'x', lshape, D, P, lc, lscale)
             z = IOPS[op](z, y)
             ctx.eq(plain(z.data), plain(zb.data), 'inplace==binary')
     except Exception as e:
@@ -219,7 +221,7 @@ def h_pow_kinds(ctx, which, D, P):
     X = np.empty((D, P, 2), dtype=object)
     # the zeroth coefficient is positive only where the power needs it (real / complex exponents); integer
     # exponents n >= 0 take any base (zero included), negative ones any non-zero base
-    needs_pos = which in ('npfloat_exp', 'pycomplex_exp', 'npcomplex_exp')
+    needs_pos = which in ('npfloat_exp', 'pycomplex_exp', 'npcomplex_exp', 'npcomplex64_exp', 'nd0complex_exp')
     for idx in np.ndindex(*X.shape):
         X[idx] = ctx.var('x%s' % list(idx), pos=(idx[0] == 0 and needs_pos))
         if idx[0] == 0 and which == 'negint_exp':
@@ -253,14 +255,14 @@ def h_pow_kinds(ctx, which, D, P):
     elif which == 'bigint_base':
         z = (10 ** 30) ** x
         table = lambda x0: lib.d_rpow(ctx, x0, D - 1, c=lib.num(ctx, Fraction(10 ** 30)))
-    elif which in ('pycomplex_exp', 'npcomplex_exp'):
+    elif which in ('pycomplex_exp', 'npcomplex_exp', 'npcomplex64_exp', 'nd0complex_exp'):
         # real base, complex scalar exponent: decided on the float build (the symbolic layer has
         # no complex power atom); reference exp(r * log x) by composition
         if ctx.mode == 'sym':
             ctx.fact(True, 'complex exponent: decided on the float build')
             ctx.eq(S.const(0), S.const(0), 'z')
             return
-        r = (1.5 + 0.5j) if which == 'pycomplex_exp' else np.complex128(1.5 + 0.5j)
+        r = {'pycomplex_exp': (1.5 + 0.5j), 'npcomplex_exp': np.complex128(1.5 + 0.5j), 'npcomplex64_exp': np.complex64(1.5 + 0.5j), 'nd0complex_exp': np.array(1.5 + 0.5j)}[which]
         z = x ** r
         Z = plain(z.data)
         ctx.fact(np.iscomplexobj(Z), 'real ** complex scalar is complex')
@@ -364,6 +366,19 @@ def units(tier, seed):
                         lshape=(2,), rshape=(2,), D=D, P=(1 if tier == 'quick' else 2), lc=lc, rc=rc)
       add = base_add
     D, P = D0, P0
+    # storage layouts of the left operand that reshape / ravel shortcuts cannot handle without a copy
+    for lay in ('FULL_F', 'PVIEW'):
+        for op in ('add', 'sub', 'mul', 'div'):
+            for rk, rs in (('pyscalar', ()), ('npscalar', ()), ('ndarray', (2,)), ('utpm', (2,)), ('utpm', (2, 2))):
+                out.append(Unit('C02/utpm %s= %s/(2, 2),%s/left operand stored as %s' % (op, rk, rs, lay), 'symx.props.c02', 'h_binop',
+                                dict(op=op, lkind='utpm', rkind=rk, lshape=(2, 2), rshape=rs, D=3, P=2, form='inplace'), {'property': PROP, 'layout': lay}))
+            out.append(Unit('C02/utpm %s utpm/(2, 2),(2,)/operands stored as %s' % (op, lay), 'symx.props.c02', 'h_binop',
+                            dict(op=op, lkind='utpm', rkind='utpm', lshape=(2, 2), rshape=(2,), D=3, P=2), {'property': PROP, 'layout': lay}))
+    # one-element constant arrays of higher rank than the polynomial (the result takes the constant's rank)
+    for op in ('add', 'sub', 'mul', 'div'):
+        for ls, rs in (((2,), (1, 1)), ((), (1,)), ((2, 2), (1, 1, 1)), ((3,), (1, 1))):
+            add('utpm %s ndarray/%s,%s (one-element constant of higher rank)' % (op, ls, rs), 'h_binop', op=op, lkind='utpm', rkind='ndarray', lshape=ls, rshape=rs, D=D, P=P)
+            add('ndarray %s utpm/%s,%s (one-element constant of higher rank)' % (op, rs, ls), 'h_binop', op=op, lkind='ndarray', rkind='utpm', lshape=rs, rshape=ls, D=D, P=P)
     # in-place forms whose right operand overlaps the left one (the result is that of the out-of-place operator
     # on the old values): harness of C14
     from . import c14
@@ -385,7 +400,7 @@ def units(tier, seed):
     for op in ('mul', 'div'):
         add('utpm %s utpm/(),()/D17,P1' % op, 'h_binop', op=op, lkind='utpm', rkind='utpm', lshape=(), rshape=(), D=17, P=1)
         add('utpm %s= utpm/(2,),(2,)/D17,P1' % op, 'h_binop', op=op, lkind='utpm', rkind='utpm', lshape=(2,), rshape=(2,), D=17, P=1, form='inplace')
-    for which in ('uint8_base', 'int8_base', 'float32_base', 'float16_base', 'int16_base', 'bigint_base', 'pycomplex_exp', 'npcomplex_exp', 'negbase_complex_poly', 'posbase_complex_poly'):
+    for which in ('uint8_base', 'int8_base', 'float32_base', 'float16_base', 'int16_base', 'bigint_base', 'pycomplex_exp', 'npcomplex_exp', 'npcomplex64_exp', 'nd0complex_exp', 'negbase_complex_poly', 'posbase_complex_poly'):
         add('pow/%s' % which, 'h_pow_kinds', which=which, D=D + 1, P=P)
     for which in ('pyfloat_base', 'pyint_base', 'npfloat_exp', 'npint_exp', 'negint_exp', 'pyint_exp0', 'pyint_exp1', 'pyint_exp2', 'pyint_exp3', 'pyint_exp4', 'pyint_exp5', 'pyint_exp7'):
         add('pow/%s' % which, 'h_pow_kinds', which=which, D=D + 1, P=P)
